@@ -67,6 +67,8 @@ REWRITES = {
     "usize_to_isize_expect": ("re", r"(let \w+: isize = )([\w\.]+)\.try_into\(\)\.expect\((\"[^\"]*\")\);", r"\1usize_to_isize_expect(\2, \3);", "TryFrom<usize> for isize has no vstd spec; shim = `x.try_into().expect(msg)`, panics iff x > isize::MAX"),
     "isize_to_usize_expect": ("re", r"(let \w+: usize = )(\([^;]*?\))\.try_into\(\)\.expect\((\"[^\"]*\")\);", r"\1isize_to_usize_expect(\2, \3);", "TryFrom<isize> for usize has no vstd spec; shim = `x.try_into().expect(msg)`, panics iff x < 0"),
     "flat_map_extend": ("re", r"(?s)errors\s*\.extend\(\s*self\s*\.(\w+)\s*\.iter\(\)\s*\.flat_map\((.*?)\),?\s*\);", r"extend_flat_map(&mut errors, &self.\1, \2);", "Vec::extend(iter().flat_map(f)) -> shim with the same std body; `flat_map` applies f to each element in order and concatenates (assumed, R6)"),
+    "map_collect": ("re", r"(?s)(\w+)\s*\.into_iter\(\)\s*\.map\((.*)\)\s*\.collect\(\)", r"vec_map_collect(\1, \2)", "v.into_iter().map(f).collect() -> shim with the same std body; `map` applies f to each element in order (assumed, R6)"),
+    "as_ref_on_mut_box_reference": ("re", r"(\b\w+)\.as_ref\(\)\.as_ref\(\)", r"Reference::as_ref(&**\1)", "x.as_ref().as_ref() on &mut Box<Reference<T>>: std blanket impl + Box::as_ref (`&**self`) + Reference::as_ref"),
     "drop_const_fn": ("re", r"\bconst fn\b", "fn", "const fn that calls non-const shim"),
 }
 
@@ -395,6 +397,14 @@ def emit_block(blk, rel, out_lines, meta):
             for name in arg.split():
                 text, log = apply_rewrite(name, text)
                 record["rewrites"].append(log)
+    # body dropped: the fn keeps its signature and contract, the body is not part of this unit
+    for d, arg, payload, tl in blk.subs:
+        if d == "assume_body":
+            m = re.match(r"fn\s+(\w+)", arg.strip())
+            toks_, fit_ = fn_in_text(text, m.group(1) if m else None)
+            bs, be = toks_[fit_.body_open].start, toks_[fit_.body_close].end
+            record["rewrites"].append({"rewrite": "assume_body", "why": "contract used by callers in this unit; the body is verified in another unit (see assumptions)", "sites": [{"from": text[bs:be][:80] + "..."}]})
+            text = text[:fit_.start] + "#[verifier::external_body]\n    " + text[fit_.start:bs] + "{ unimplemented!() }" + text[be:]
     # R2 visibility
     if r.kind != "closure" and not vis_keep and r.kind in ("fn", "struct", "enum", "trait", "const", "type") and not (len(r.chain) >= 2 and "for" in r.chain[-2].name.split() and r.chain[-2].kind == "impl"):
         toks = rscan.tokenize(text)
@@ -419,7 +429,7 @@ def emit_block(blk, rel, out_lines, meta):
         return "\n".join(p[0] for p in payload)
 
     for order, (d, arg, payload, tl) in enumerate(blk.subs):
-        if d in ("rewrite", "lift", "vis"):
+        if d in ("rewrite", "lift", "vis", "assume_body"):
             continue
         if r.kind == "closure" and d not in ("before", "after", "loop"):
             if d == "sig":
